@@ -233,8 +233,6 @@ LEVEL_TEXT[P] = ("Bounded model checking of the write step: Framebuf::rasterize 
 H(P, "c06", "c06_two_spans_commute", ("bare",), "two arbitrary spans (x0,n,z0,dz,colour) on a W-px row (W = 2 quick, 3 thorough)", "A;B == B;A (depth always, colour unless exact tie); no NaN", unwind=5, est=500, cap=1500)
 H(P, "c06", "c06_nearest_wins", ("bare",), "two arbitrary spans, a symbolic pixel", "the pixel holds the larger reciprocal depth among the covering fragments and that fragment's colour; failing fragments write nothing", unwind=5, est=500, cap=1500)
 H(P, "c06", "c06_depth_test_semantics", ("bare",), "every (new, curr) float pair incl. NaN/inf x {None, Less, Equal, Greater}", "None passes; Less <=> new > curr (reciprocal depth); default is Less", est=5)
-H(P, "c02", "c06_depth_sort_disjoint_ranges", ("bare",), "3 triangles x 3 arbitrary integer vertex depths in [-8,8], both sort directions", "permutation; any two triangles with disjoint depth ranges come out in depth order (tolerant of the sort key: centroid, nearest or farthest vertex)", unwind=12, est=200, cap=900,
-  assumes=["reached through the cfg(kani) hook render::verif_hooks::depth_sort (a plain wrapper)"])
 H(P, "c02", "c06_depth_sort_orders", ("bare",), "3 triangles, distinct integer depth sums in [-8,8], arbitrary integer x, y in [-8,8] per triangle, w = 1, both sort directions", "permutation; FrontToBack ascending, BackToFront descending", unwind=12, est=60,
   assumes=["reached through the cfg(kani) hook render::verif_hooks::depth_sort (a plain wrapper)"])
 
@@ -318,7 +316,7 @@ for n, dom in [("c13_p6_0x3", "'P6 0 3 255\\n'"), ("c13_p6_2x0", "'P6 2 0 255\\n
 for n, dom in [("c13_p6_overflowing_dims", "'P6 65536 65536 255'"), ("c13_p6_huge_width", "'P6 4294967295 2 255'"), ("c13_p5_large", "'P5 40000 40000 255'"), ("c13_p6_dim_too_big_for_u32", "'P6 4294967296 1 255'")]:
     H(P, "c13", n, ("bare",), dom + " ++ <= 4 arbitrary bytes", "Err, never a panic", unwind=40, est=60)
 H(P, "c13", "c13_bad_magic", ("bare",), "5 concrete files with unknown or truncated magic numbers (test-like)", "Err, no panic", unwind=12, est=120, cap=900)
-H(P, "c13", "c13_p1_total", ("bare",), "3 concrete P1 (plain bitmap) files: well-formed, sample 2, sample 255 (test-like)", "no panic; an Ok has the header's dimensions and w*h pixels (P1 is unsupported today; accepting it is not pinned as an error)", unwind=12, est=200, cap=900)
+H(P, "c13", "c13_p1_total", ("bare",), "2 concrete P1 (plain bitmap) files: sample 2; samples 1 and 255 (test-like)", "no panic; an Ok has the header's dimensions and w*h pixels (P1 is unsupported today; accepting it is not pinned as an error)", unwind=12, est=200, cap=900)
 H(P, "c13", "c13_garbage_after_magic", ("bare",), "6 concrete malformed files and 2 concrete text-format files (test-like: concrete execution by the symbolic engine)", "malformed numbers => Err; P2/P3 text samples decode", unwind=24, est=1500, cap=2700, tiers=("thorough",))
 H(P, "c13", "c13_write_ppm_view", ("std",), "2x2 sub-view at any offset of a 3x3 image with arbitrary pixel bytes", "write_ppm emits 'P6 2 2 255\\n' + the view's pixels row-major (the decode harnesses cover reading exactly that spelling back)", unwind=24, est=600, cap=1500)
 H(P, "c13", "c13_roundtrip_2x2_view", ("std",), "2x2 sub-view at any offset of a 3x3 image with arbitrary pixel bytes", "read_pnm(write_ppm(view)) == view", unwind=40, est=2000, cap=2700, tiers=("thorough",))
@@ -340,7 +338,7 @@ for n in (2, 4):
 for n in (1, 2, 3, 4):
     H(P, "c17", f"c17_joins_n{n}", ("bare",), f"{n}-segment spline, integer control points in [-4,4], t = k/{n}", "eval(k/n) == control point 3k (1e-3); eval(0), eval(1) are the end points", unwind=16, est=120, cap=900)
 H(P, "c17", "c17_approximate_trees", ("bare",), "approximate() on the curve x = 3t^2 with a halt predicate that is arbitrary above depth D and true at depth D: every subdivision tree of depth <= 2 (depth 3 exhausts memory)", "terminates; first == p0, last == p_end exactly; points 3a^2 at strictly increasing dyadic a; every gap an aligned power of two (a node of the bisection tree)", unwind=12, est=120, cap=900)
-H(P, "c17", "c17_approximate_depth_bound", ("bare",), "the subdivision behind approximate() with the explicit depth budget B = 2 on the curve x = 3t^2, halting criterion answering arbitrarily (every tree the criterion could ask for, including 'never satisfied')", "stops at depth B on every path (left and right turns alike): vertices on the grid k/2^B, gaps aligned powers of two; never-satisfied criterion => the full grid of 2^B + 1 vertices", unwind=12, est=200, cap=900,
+H(P, "c17", "c17_approximate_depth_bound", ("bare",), "the subdivision behind approximate() with the explicit depth budget B = 2 on the curve x = 3t^2, criterion met only one level below the budget (depth 3)", "stops at depth B on every path (left and right turns alike): 2^B+1 vertices on the grid k/2^B, gaps aligned powers of two; criterion unmet at the bound => the full grid", unwind=12, est=200, cap=900,
   assumes=["reached through the cfg(kani) hook BezierSpline::verif_approximate_to_depth (do_approx with the budget as a parameter; approximate() itself passes 10 + log2(len))"])
 H(P, "c17", "c17_new_rejects_bad_length", ("bare",), "every length <= 12 that is not 3n+1 (n>=1)", "BezierSpline::new panics", kind="should_panic", unwind=16, est=30)
 H(P, "c17", "c17_smoothstep", ("bare",), "every float t; lattice k/16", "clamps outside [0,1]; fixed point 1/2; == 3t^2-2t^3 exactly on the lattice; in [0,1]", est=30)
